@@ -3,6 +3,7 @@ package main
 // Query construction (quantifier-free after skolemisation / instantiation) and solver racing.
 
 import (
+	"math/big"
 	"runtime"
 	"bytes"
 	"context"
@@ -33,6 +34,7 @@ type Query struct {
 	Notes   []string
 	GoalHyps []*Term // the hypotheses that come from the (negated) goal
 	GoalOnly bool    // instantiate schemas only at index terms reachable from the goal
+	Frames   *frameReg
 }
 
 type quantErr string
@@ -214,11 +216,114 @@ func isWordArray(a *Term) bool {
 	}
 }
 
-// indexTerms collects candidate instantiation terms.
-func indexTerms(ts []*Term, bound map[string]bool) []*Term {
+// arrayFamily names the slice-backing array a word-array term is a version of: the row
+// `Mem[arr]`, stores into it, and the fresh arrays introduced by a frame havoc of it all
+// belong to family arr.  "" = unknown (matches every family).
+func arrayFamily(a *Term, fr *frameReg) string {
+	for depth := 0; depth < 64; depth++ {
+		switch a.Op {
+		case "store":
+			a = a.Args[0]
+		case "ite":
+			l, r := arrayFamily(a.Args[1], fr), arrayFamily(a.Args[2], fr)
+			if l == r {
+				return l
+			}
+			return ""
+		case "select":
+			if a.Args[0].Sort == SMem {
+				return a.Args[1].String()
+			}
+			return ""
+		case "const":
+			if fr == nil {
+				return ""
+			}
+			fr.mu.Lock()
+			fp, ok := fr.pairs[a.Name]
+			fr.mu.Unlock()
+			if !ok {
+				return ""
+			}
+			if fp.arr != nil {
+				return fp.arr.String()
+			}
+			a = fp.before
+		default:
+			return ""
+		}
+	}
+	return ""
+}
+
+// freshVsOther: one family is an array allocated by this function (constant arr_<n>), the
+// other one a different allocation or a term over the entry state only (parameters v_*, entry
+// heaps H_*): they denote different arrays.
+func freshVsOther(a, b string) bool {
+	fresh := func(s string) bool {
+		if !strings.HasPrefix(s, "arr_") {
+			return false
+		}
+		for _, c := range s[4:] {
+			if c < '0' || c > '9' {
+				return false
+			}
+		}
+		return len(s) > 4
+	}
+	entry := func(s string) bool {
+		// every identifier in the rendered term is a parameter or an entry heap
+		for _, f := range strings.FieldsFunc(s, func(r rune) bool { return r == '(' || r == ')' || r == ' ' }) {
+			if f == "" || f == "select" || f == "+" || f == "-" || f == "*" || (f[0] >= '0' && f[0] <= '9') {
+				continue
+			}
+			if !strings.HasPrefix(f, "v_") && !strings.HasPrefix(f, "H_") {
+				return false
+			}
+		}
+		return true
+	}
+	if fresh(a) && fresh(b) {
+		return true
+	}
+	if a == "0" || b == "0" {
+		return true // array 0 backs nil slices only (length 0): no access to it is ever live
+	}
+	return (fresh(a) && entry(b)) || (fresh(b) && entry(a))
+}
+
+type candTerm struct {
+	t    *Term
+	fam  string
+	coef *big.Int // patterns only: idx = coef*v + t (nil = 1)
+}
+
+// exactQuot returns t/c when every coefficient of the linear form of t is divisible by c.
+func exactQuot(t *Term, c *big.Int) *Term {
+	l := newLin()
+	l.add(t, bigOne)
+	r := new(big.Int)
+	if r.Mod(l.konst, c); r.Sign() != 0 {
+		return nil
+	}
+	for _, k := range l.keys {
+		if r.Mod(l.coef[k], c); r.Sign() != 0 {
+			return nil
+		}
+	}
+	l.konst.Quo(l.konst, c)
+	for _, k := range l.keys {
+		l.coef[k].Quo(l.coef[k], c)
+	}
+	return l.term()
+}
+
+// indexTerms collects candidate instantiation terms, each with the family of the array it
+// indexes.
+func indexTerms(ts []*Term, bound map[string]bool, fr *frameReg) []candTerm {
 	seen := map[string]bool{}
-	var out []*Term
-	add := func(t *Term) {
+	var out []candTerm
+	add := func(t *Term, fam string) {
 		if t.Sort != SInt {
 			return
 		}
@@ -232,20 +337,28 @@ func indexTerms(ts []*Term, bound map[string]bool) []*Term {
 		if !ok {
 			return
 		}
-		k := t.String()
+		k := fam + "|" + t.String()
 		if !seen[k] {
 			seen[k] = true
-			out = append(out, t)
+			out = append(out, candTerm{t, fam, nil})
 		}
 	}
 	for _, t := range ts {
 		walk(t, func(u *Term) bool {
 			if u.Op == "select" && u.Args[0].Sort != SMem && isWordArray(u.Args[0]) {
-				add(u.Args[1])
+				if os.Getenv("DVC_FAMDEBUG") == "2" {
+					as := u.Args[0].String()
+					if len(as) > 80 {
+						as = as[:80]
+					}
+					fmt.Fprintf(os.Stderr, "  idx %s of array %s (op %s) -> fam %q\n", u.Args[1], as, u.Args[0].Op, arrayFamily(u.Args[0], fr))
+				}
+				add(u.Args[1], arrayFamily(u.Args[0], fr))
 			}
 			if u.Op == "V" || u.Op == "V2" {
-				add(u.Args[1])
-				add(mkSub(u.Args[2], mkI(1)))
+				fam := arrayFamily(u.Args[0], fr)
+				add(u.Args[1], fam)
+				add(mkSub(u.Args[2], mkI(1)), fam)
 			}
 			return true
 		})
@@ -253,10 +366,11 @@ func indexTerms(ts []*Term, bound map[string]bool) []*Term {
 	return out
 }
 
-// patternOffsets finds, for bound variable v, the index patterns (v + off) used in the schema body.
-func patternOffsets(body *Term, v string) []*Term {
+// patternOffsets finds, for bound variable v, the index patterns (v + off) used in the schema
+// body, each with the family of the indexed array.
+func patternOffsets(body *Term, v string, fr *frameReg) []candTerm {
 	seen := map[string]bool{}
-	var offs []*Term
+	var offs []candTerm
 	walk(body, func(u *Term) bool {
 		if u.Op == "select" && u.Args[0].Sort != SMem {
 			idx := u.Args[1]
@@ -264,12 +378,19 @@ func patternOffsets(body *Term, v string) []*Term {
 			l := newLin()
 			l.add(idx, bigOne)
 			k := v
-			if c, ok := l.coef[k]; ok && c.Cmp(bigOne) == 0 {
-				off := mkSub(idx, mkConst(v, SInt))
+			if c, ok := l.coef[k]; ok && c.Sign() != 0 {
+				// idx = c*v + off (strided accesses such as buf[n - 8*k - 1] have c != 1)
+				off := mkSub(idx, mkMul(mkConst(v, SInt), mkInt(c)))
 				if !strings.Contains(off.String(), v) {
-					if !seen[off.String()] {
-						seen[off.String()] = true
-						offs = append(offs, off)
+					fam := arrayFamily(u.Args[0], fr)
+					key := fam + "|" + c.String() + "|" + off.String()
+					if !seen[key] {
+						seen[key] = true
+						var cf *big.Int
+						if c.Cmp(bigOne) != 0 {
+							cf = new(big.Int).Set(c)
+						}
+						offs = append(offs, candTerm{off, fam, cf})
 					}
 				}
 			}
@@ -277,7 +398,7 @@ func patternOffsets(body *Term, v string) []*Term {
 		return true
 	})
 	if len(offs) == 0 {
-		offs = append(offs, mkI(0))
+		offs = append(offs, candTerm{mkI(0), "", nil})
 	}
 	return offs
 }
@@ -295,6 +416,14 @@ func instantiate(q *Query) (insts []*Term) {
 	if q.GoalOnly {
 		ground = append([]*Term(nil), q.GoalHyps...)
 	}
+	// arrays stated to be different by a hypothesis `a != b`
+	distinct := map[string]bool{}
+	for _, h := range q.Hyps {
+		if h.Op == "not" && len(h.Args) == 1 && h.Args[0].Op == "=" && len(h.Args[0].Args) == 2 {
+			a, b := h.Args[0].Args[0].String(), h.Args[0].Args[1].String()
+			distinct[a+"|"+b], distinct[b+"|"+a] = true, true
+		}
+	}
 	done := map[string]bool{}
 	for round := 0; round < 2; round++ {
 		var all []*Term
@@ -305,16 +434,30 @@ func instantiate(q *Query) (insts []*Term) {
 				all = append(all, s.body)
 			}
 		}
-		cands := indexTerms(all, bound)
+		cands := indexTerms(all, bound, q.Frames)
 		var added []*Term
 		for si, s := range q.Schemas {
 			// candidate values per variable
 			per := make([][]*Term, len(s.vars))
 			for vi, v := range s.vars {
 				seen := map[string]bool{}
-				for _, off := range patternOffsets(s.body, v) {
+				for _, off := range patternOffsets(s.body, v, q.Frames) {
+					if os.Getenv("DVC_FAMDEBUG") != "" {
+						fmt.Fprintf(os.Stderr, "schema %d var %s pattern off=%s fam=%q coef=%v\n", si, v, off.t, off.fam, off.coef)
+						for _, c := range cands {
+							fmt.Fprintf(os.Stderr, "    cand %s fam=%q\n", c.t, c.fam)
+						}
+					}
 					for _, c := range cands {
-						t := mkSub(c, off)
+						if off.fam != "" && c.fam != "" && off.fam != c.fam && (distinct[off.fam+"|"+c.fam] || freshVsOther(off.fam, c.fam)) {
+							continue // an index into an array known to be a different one: not a useful instance
+						}
+						t := mkSub(c.t, off.t)
+						if off.coef != nil {
+							if t = exactQuot(t, off.coef); t == nil {
+								continue
+							}
+						}
 						if !seen[t.String()] {
 							seen[t.String()] = true
 							per[vi] = append(per[vi], t)
@@ -355,6 +498,7 @@ func instantiate(q *Query) (insts []*Term) {
 
 type framePair struct {
 	before, lo, hi *Term
+	arr            *Term // the backing array this constant is a version of (nil if not recorded)
 }
 
 // frameReg is the per-function registry of array constants known to equal an earlier
@@ -367,9 +511,9 @@ type frameReg struct {
 func newFrameReg() *frameReg { return &frameReg{pairs: map[string]framePair{}} }
 
 // registerFrame records that array constant nm equals `before` outside [lo,hi).
-func (fc *FnCtx) registerFrame(nm *Term, before, lo, hi *Term) {
+func (fc *FnCtx) registerFrame(nm *Term, before, lo, hi *Term, arr *Term) {
 	fc.frames.mu.Lock()
-	fc.frames.pairs[nm.Name] = framePair{before, lo, hi}
+	fc.frames.pairs[nm.Name] = framePair{before, lo, hi, arr}
 	fc.frames.mu.Unlock()
 }
 
@@ -766,6 +910,7 @@ func (d *Discharger) prepareMode(o *Obligation, getValues []*Term, mode int) (st
 		return "", "", err
 	}
 	q.GoalOnly = mode != 0
+	q.Frames = o.frames
 	t0 := time.Now()
 	insts := instantiate(q)
 	t1 := time.Now()
@@ -789,10 +934,120 @@ func (d *Discharger) prepareMode(o *Obligation, getValues []*Term, mode int) (st
 	return txt, uf, nil
 }
 
+// simplifyDistinct uses the hypotheses of the form `a != b` (a, b symbolic constants, e.g.
+// the backing arrays of two slices a precondition keeps apart) to decide every test `a == b`
+// inside the other hypotheses and the goal.  Equivalent under the hypotheses; it removes the
+// `ite (= x.arr y.arr) ...` alternatives that reads of possibly aliasing slices produce.
+func simplifyDistinct(o *Obligation) {
+	pairs := map[string]bool{}
+	isPair := func(t *Term) bool {
+		return t.Op == "=" && len(t.Args) == 2 && t.Args[0].Op == "const" && t.Args[1].Op == "const" && t.Args[0].Sort == SInt
+	}
+	for _, h := range o.Hyps {
+		if h.Op == "not" && len(h.Args) == 1 && isPair(h.Args[0]) {
+			a, b := h.Args[0].Args[0].Name, h.Args[0].Args[1].Name
+			pairs[a+"|"+b], pairs[b+"|"+a] = true, true
+		}
+	}
+	if len(pairs) == 0 {
+		return
+	}
+	f := func(u *Term) *Term {
+		if isPair(u) && pairs[u.Args[0].Name+"|"+u.Args[1].Name] {
+			return tFalse
+		}
+		return nil
+	}
+	hyps := make([]*Term, 0, len(o.Hyps))
+	for _, h := range o.Hyps {
+		if h.Op == "not" && len(h.Args) == 1 && isPair(h.Args[0]) {
+			hyps = append(hyps, h)
+			continue
+		}
+		hyps = append(hyps, rebuild(h, f))
+	}
+	o.Hyps = hyps
+	o.Goal = rebuild(o.Goal, f)
+}
+
+// deriveDistinct decides the tests `A == B` between an array allocated by this function
+// (arr_<n>) and a term over the entry state: if the quantifier-free hypotheses already
+// refute all of them (one small solver call), they are replaced by false everywhere.  Reads
+// of a slice that could alias the fresh array only syntactically lose their `ite`.
+var distinctCache sync.Map
+
+func (d *Discharger) deriveDistinct(o *Obligation) {
+	type pr struct{ a, b *Term }
+	seen := map[string]bool{}
+	var cands []pr
+	visit := func(t *Term) {
+		walk(t, func(u *Term) bool {
+			if u.Op == "=" && len(u.Args) == 2 && u.Args[0].Sort == SInt {
+				a, b := u.Args[0], u.Args[1]
+				if (a.Op == "const" && strings.HasPrefix(a.Name, "arr_")) || (b.Op == "const" && strings.HasPrefix(b.Name, "arr_")) {
+					as, bs := a.String(), b.String()
+					if !seen[as+"|"+bs] && freshVsOther(as, bs) && as != "0" && bs != "0" {
+						seen[as+"|"+bs] = true
+						cands = append(cands, pr{a, b})
+					}
+				}
+			}
+			return true
+		})
+	}
+	for _, h := range o.Hyps {
+		visit(h)
+	}
+	visit(o.Goal)
+	if len(cands) == 0 {
+		return
+	}
+	var small []*Term
+	for _, h := range o.Hyps {
+		if !hasForall(h) && len(h.String()) < 1500 {
+			small = append(small, h)
+		}
+	}
+	var eqs []*Term
+	for _, c := range cands {
+		eqs = append(eqs, mkEq(c.a, c.b))
+	}
+	text := renderQuery(append(append([]*Term(nil), small...), mkOr(eqs...)), nil)
+	res, ok := distinctCache.Load(text)
+	if !ok {
+		id := int(atomic.AddInt64(&d.nq, 1))
+		file := filepath.Join(d.workdir, fmt.Sprintf("d%06d.smt2", id))
+		if os.WriteFile(file, []byte(text), 0o644) != nil {
+			return
+		}
+		r := runSolver(context.Background(), solvers[0], 3, file)
+		os.Remove(file)
+		res = r.Result
+		distinctCache.Store(text, res)
+	}
+	if res != "unsat" {
+		return
+	}
+	f := func(u *Term) *Term {
+		if u.Op == "=" && len(u.Args) == 2 && (seen[u.Args[0].String()+"|"+u.Args[1].String()] || seen[u.Args[1].String()+"|"+u.Args[0].String()]) {
+			return tFalse
+		}
+		return nil
+	}
+	hyps := make([]*Term, 0, len(o.Hyps))
+	for _, h := range o.Hyps {
+		hyps = append(hyps, rebuild(h, f))
+	}
+	o.Hyps = hyps
+	o.Goal = rebuild(o.Goal, f)
+}
+
 func (d *Discharger) discharge(o *Obligation) {
 	if o.Result != "" {
 		return
 	}
+	simplifyDistinct(o)
+	d.deriveDistinct(o)
 	if o.Kind == "cover" {
 		// reachability checks only matter when they come back unsat (vacuity); a model search
 		// over nonlinear constraints can be slow, so they get one short attempt
